@@ -13,11 +13,17 @@ func init() {
 	extraGens["FRZ"] = (*Gen).genFrozen
 	extraGens["FRZB"] = func(g *Gen, n int) error {
 		if n == 0 {
-			n = 3
+			n = 4
 		}
 		for i := 0; i < n; i++ {
 			g.emit("note case %d", i)
-			g.bigFrozenCase([]int{1026, 1025, 1024}[i%3])
+			if i%4 == 3 {
+				g.reopenedOnly = true
+				g.wideSchemaCase(true)
+				g.reopenedOnly = false
+				continue
+			}
+			g.bigFrozenCase([]int{1026, 1025, 1024}[i%4])
 		}
 		return nil
 	}
